@@ -565,7 +565,7 @@ func (*c18bWorld) Runs(tier string) int {
 	if tier == "thorough" {
 		return 600000
 	}
-	return 4000
+	return 8000
 }
 
 // ProcessRuns: a fresh worker process every 40 runs, so that lazily initialised process-wide state (memo tables,
